@@ -129,7 +129,9 @@ def run(ctx):
                 'exact models; (4) real signals (8 families) x {sd,rilling,fixed} x step {1,1/2,1/4} x {splrep,pchip,mono_pchip} x pad 1..4 x '
                 'limits 1..1000: specification oracle + trace conformance of the model.  non-trivial = at least one sifting iteration was '
                 'completed (envelopes existed at iterate 0)' % (4 if ctx.quick() else 5))
-    ctx.proof()
+    # the translation tie: the control skeletons of get_next_imf / sift / mask_sift are regenerated from the source and the
+    # refinement theorems to the models used by this property's theorems are re-checked
+    ctx.proof(extra=['props/Prop_Tie_Sift.v'])
     bad = []
     # ---- (1) scripted, exhaustive
     depth = 4 if ctx.quick() else 5
